@@ -40,6 +40,16 @@ func bitsToPfx(bits string, w int) *bnet.Prefix {
 	if bits == "_" {
 		bits = ""
 	}
+	if i := strings.IndexByte(bits, '/'); i >= 0 { // raw: all 32 address bits + length
+		var v uint32
+		for k := 0; k < i && k < 32; k++ {
+			if bits[k] == '1' {
+				v |= 1 << uint(31-k)
+			}
+		}
+		n, _ := strconv.Atoi(bits[i+1:])
+		return bnet.NewPfx(bnet.IPv4(v), uint8(n)).Ptr()
+	}
 	if w == 32 {
 		var v uint32
 		for i := 0; i < len(bits); i++ {
@@ -109,6 +119,15 @@ func pfxToBits(p *bnet.Prefix, w int) string {
 		s += "h"
 	}
 	return s
+}
+
+// rawBits prints an IPv4 prefix with all its address bits (raw stream)
+func rawBits(p *bnet.Prefix) string {
+	a := p.Addr()
+	if !a.IsIPv4() {
+		return "?family"
+	}
+	return fmt.Sprintf("%032b/%d", a.ToUint32(), p.Len())
 }
 
 func normBits(s string) string {
@@ -240,7 +259,7 @@ func parseCase(in string) (*tcase, error) {
 		switch {
 		case strings.HasPrefix(t, "T="):
 			c.target = t[2:]
-			if c.target != "rt" && c.target != "lr" && c.target != "lc" {
+			if c.target != "rt" && c.target != "lr" && c.target != "lc" && c.target != "rn" {
 				return nil, fmt.Errorf("bad target %q", t)
 			}
 		case t == "W=4":
@@ -250,7 +269,16 @@ func parseCase(in string) (*tcase, error) {
 		case strings.HasPrefix(t, "P="):
 			for _, p := range strings.Split(t[2:], ",") {
 				p = normBits(p)
-				if len(p) > c.w || strings.Trim(p, "01") != "" {
+				if c.target == "rn" {
+					i := strings.IndexByte(p, '/')
+					n := -1
+					if i == 32 {
+						n, _ = strconv.Atoi(p[i+1:])
+					}
+					if c.w != 32 || i != 32 || strings.Trim(p[:i], "01") != "" || n < 1 || n > 32 || p != fmt.Sprintf("%s/%d", p[:i], n) {
+						return nil, fmt.Errorf("bad raw prefix %q", p)
+					}
+				} else if len(p) > c.w || strings.Trim(p, "01") != "" {
 					return nil, fmt.Errorf("bad prefix %q", p)
 				}
 				c.pool = append(c.pool, p)
@@ -269,7 +297,7 @@ func parseCase(in string) (*tcase, error) {
 			if want == 0 || len(parts) != want {
 				return nil, fmt.Errorf("bad token %q", t)
 			}
-			if (o.kind == 'p' || o.kind == 'x') && c.target != "rt" {
+			if (o.kind == 'p' || o.kind == 'x') && c.target != "rt" && c.target != "rn" {
 				return nil, fmt.Errorf("token %q needs T=rt", t)
 			}
 			if want >= 2 {
@@ -440,6 +468,9 @@ func (c *tcase) fmtRoutes(rs []*route.Route) string {
 			continue
 		}
 		b := pfxToBits(r.Prefix(), c.w)
+		if c.target == "rn" {
+			b = rawBits(r.Prefix())
+		}
 		var ids []int
 		for _, p := range r.Paths() {
 			ids = append(ids, pathID(p))
@@ -465,7 +496,7 @@ type result struct {
 func runCase(c *tcase) (res result) {
 	var t table
 	switch c.target {
-	case "rt":
+	case "rt", "rn":
 		t = rtT{routingtable.NewRoutingTable()}
 	case "lr":
 		t = lrT{locRIB.New("c01")}
@@ -482,6 +513,9 @@ func runCase(c *tcase) (res result) {
 	var out []string
 	deletedSome, absentQuery := false, false
 	viol := func(sig, format string, a ...interface{}) {
+		if c.target == "rn" {
+			return // no oracle for non-canonical prefixes
+		}
 		if res.sig == "" {
 			res.sig, res.detail = sig, fmt.Sprintf(format, a...)
 		}
@@ -516,7 +550,11 @@ func runCase(c *tcase) (res result) {
 					ids = append(ids, pathID(p))
 				}
 				g = fmtPaths(ids)
-				if b := pfxToBits(r.Prefix(), c.w); normBits(b) != q {
+				b := pfxToBits(r.Prefix(), c.w)
+				if c.target == "rn" {
+					b = rawBits(r.Prefix())
+				}
+				if normBits(b) != q {
 					g = "?" + b + ":" + g
 				}
 			}
@@ -565,7 +603,7 @@ func runCase(c *tcase) (res result) {
 	if res.obs == "" {
 		res.obs = "none"
 	}
-	res.nt = deletedSome && absentQuery
+	res.nt = deletedSome && absentQuery && c.target != "rn"
 	return
 }
 
@@ -663,22 +701,67 @@ func genPool(r *hx.RNG, w int, t *hx.Trace) []string {
 	return pool
 }
 
+// rawPool turns canonical IPv4 prefixes (length >= 1) into "<32 bits>/<len>" entries, many with host bits set,
+// some of them twice with different host bits.
+func rawPool(r *hx.RNG, pool []string) []string {
+	seen := map[string]bool{}
+	var out []string
+	add := func(b string) {
+		n := len(b)
+		host := []byte(strings.Repeat("0", 32-n))
+		if n < 32 && r.Chance(50) {
+			switch k := r.Intn(10); {
+			case k < 3:
+				host[0] = '1'
+			case k < 6:
+				host[len(host)-1] = '1'
+			default:
+				host = []byte(randBits(r, 32-n))
+			}
+		}
+		e := fmt.Sprintf("%s%s/%d", b, host, n)
+		if !seen[e] {
+			seen[e] = true
+			out = append(out, e)
+		}
+	}
+	for _, b := range pool {
+		if b == "" {
+			continue
+		}
+		add(b)
+		if r.Chance(25) {
+			add(b)
+		}
+	}
+	if len(out) == 0 {
+		out = append(out, "00001010000000000000000000000001/8")
+	}
+	return out
+}
+
 func gen(r *hx.RNG, t *hx.Trace) *tcase {
 	c := &tcase{}
 	switch k := r.Intn(100); {
-	case k < 60:
+	case k < 55:
 		c.target = "rt"
-	case k < 80:
+	case k < 63:
+		c.target = "rn"
+	case k < 82:
 		c.target = "lr"
 	default:
 		c.target = "lc"
 	}
 	c.w = 32
-	if r.Chance(55) {
+	if r.Chance(55) && c.target != "rn" {
 		c.w = 128
 	}
 	t.Count("target_" + c.target)
 	c.pool = genPool(r, c.w, t)
+	if c.target == "rn" {
+		c.pool = rawPool(r, c.pool)
+	}
+	isRT := c.target == "rt" || c.target == "rn"
 	np := len(c.pool)
 	nops := 5 + r.Intn(36)
 	maxPath := 2 + r.Intn(2)
@@ -715,7 +798,7 @@ func gen(r *hx.RNG, t *hx.Trace) *tcase {
 				}
 			}
 		case k < 86:
-			if c.target == "rt" {
+			if isRT {
 				e = op{kind: 'p', i: r.Intn(np), p: r.Intn(maxPath)}
 			} else {
 				e = op{kind: 's', i: r.Intn(np), p: r.Intn(maxPath), p2: r.Intn(maxPath + 1)}
@@ -724,7 +807,7 @@ func gen(r *hx.RNG, t *hx.Trace) *tcase {
 				}
 			}
 		default:
-			if c.target == "rt" {
+			if isRT {
 				e = op{kind: 'x', i: r.Intn(np)}
 				if i, _, ok := storedPair(); ok && r.Chance(70) {
 					e.i = i
